@@ -80,6 +80,14 @@ def onePerItem (o : Obs) : Bool :=
     && count .newAccount o.reqs == 0
   else true
 
+/-- Binding changed together with the contacts, key unchanged (the CA then returns the existing
+account unchanged): one creation request followed by exactly one contact update (549b756). -/
+def bindingThenContacts (o : Obs) : Bool :=
+  if o.urlStoredBefore && o.bindingChanged && o.contactsChanged && !o.keyChanged && o.success
+      && o.reqs.all (fun r => r.answer != .accountDoesNotExist) then
+    count .newAccount o.reqs == 1 && count .accountUpdate o.reqs == 1 && count .keyChange o.reqs == 0
+  else true
+
 /-- The roll-over, when both are due, precedes the contact update. -/
 def keyBeforeContacts : List Req → Bool
   | [] => true
@@ -90,6 +98,7 @@ def holds (o : Obs) : Bool :=
   registerOnlyWhen (!o.urlStoredBefore || o.bindingChanged) o.reqs
   && o.reqs.all signerOk
   && onePerItem o
+  && bindingThenContacts o
   && keyBeforeContacts o.reqs
   && (!o.success || (o.caContactsEqual && o.caKeyIsCurrent))
 
